@@ -697,7 +697,9 @@ def _transport_events(chk, n, seed):
     os.makedirs(d, exist_ok=True)
     src = os.path.join(d, "t.asm")
     open(src, "w").write("halt\n")
-    pieces = ["echo a", " echo b ", "echo  c d", "", "  ", "echo é", "echo 😀x", "echo ✓", "ECHO up", "echo", "bogus", "echo a;b".split(";")[0], "echo tab\tin", "r", "echo \r", "r", "R", "reg", " r", "h"]
+    pieces = ["echo a", " echo b ", "echo  c d", "", "  ", "echo é", "echo 😀x", "echo ✓", "ECHO up", "echo", "bogus", "echo a;b".split(";")[0], "echo tab\tin", "r", "echo \r", "r", "R", "reg", " r", "h",
+              # one character from every class of UTF-8 lead byte (C2, D0, DF; E0, ED, EF; F0, F1, F4): the stdin reader cuts its buffer at character boundaries
+              "echo \u0080", "echo \u0436\u0434", "echo x\u07ff", "echo \u0800", "echo \ud7ff.", "echo \uffee", "echo \U00040000", "echo \U0010ffff"]
     events = []
     for k in range(n):
         m = rnd.randint(0, 6)
